@@ -125,7 +125,13 @@ def _eligible(fn: ast.FunctionDef) -> bool:
     for x in ast.walk(ast.Module(body=body, type_ignores=[])):
         if isinstance(x, (ast.Yield, ast.YieldFrom, ast.FunctionDef, ast.AsyncFunctionDef, ast.Lambda, ast.Global, ast.Nonlocal, ast.ClassDef, ast.Await)):
             return False
+    if not any(isinstance(x, ast.Return) for x in ast.walk(ast.Module(body=body, type_ignores=[]))):
+        return True          # a procedure (works by side effect): inlined where it is called as a statement
     return _returns_tree(body)
+
+
+def _is_procedure(fn) -> bool:
+    return not any(isinstance(x, ast.Return) for x in ast.walk(fn))
 
 
 def _body(fn):
@@ -211,6 +217,76 @@ def group_aliases(tree: ast.Module) -> ast.Module:
     if changed:
         ast.fix_missing_locations(tree2)
         return tree2
+    return tree
+
+
+def builder_loops(tree: ast.Module) -> ast.Module:
+    """`L = []` immediately followed by `for x in IT: [if C:] L.append(E)` (or `L.extend(E)`, or nested loops of that shape)
+    ==>  `L = [E for x in IT if C]`  (`[y for x in IT if C for y in E]` for extend).
+    The loop form and the comprehension form of one collection are the same to every rule."""
+    changed = False
+
+    def uses(e, name):
+        return any(isinstance(n, ast.Name) and n.id == name for n in ast.walk(e))
+
+    def shape(st, name, gens):
+        """-> (elt, generators) when `st` is a loop nest that only feeds `name`; else None"""
+        if isinstance(st, ast.For) and not st.orelse and len(st.body) == 1 and not uses(st.iter, name):
+            g = ast.comprehension(target=st.target, iter=st.iter, ifs=[], is_async=0)
+            return shape(st.body[0], name, gens + [g])
+        if isinstance(st, ast.If) and not st.orelse and len(st.body) == 1 and gens and not uses(st.test, name):
+            gens[-1].ifs.append(st.test)
+            return shape(st.body[0], name, gens)
+        if isinstance(st, ast.Expr) and isinstance(st.value, ast.Call) and isinstance(st.value.func, ast.Attribute) and isinstance(st.value.func.value, ast.Name) \
+                and st.value.func.value.id == name and len(st.value.args) == 1 and not st.value.keywords and gens and not uses(st.value.args[0], name):
+            if st.value.func.attr == "append":
+                return st.value.args[0], gens
+            if st.value.func.attr == "extend":
+                v = f"_x{len(gens)}"
+                return ast.Name(id=v, ctx=ast.Load()), gens + [ast.comprehension(target=ast.Name(id=v, ctx=ast.Store()), iter=st.value.args[0], ifs=[], is_async=0)]
+        return None
+
+    def block(stmts):
+        nonlocal changed
+        out = []
+        i = 0
+        while i < len(stmts):
+            st = stmts[i]
+            for f in ("body", "orelse", "finalbody"):
+                b = getattr(st, f, None)
+                if isinstance(b, list) and b and isinstance(b[0], ast.stmt):
+                    setattr(st, f, block(b))
+            if isinstance(st, ast.Try):
+                for h in st.handlers:
+                    h.body = block(h.body)
+            tgt = None
+            if isinstance(st, ast.Assign) and len(st.targets) == 1 and isinstance(st.targets[0], ast.Name) and isinstance(st.value, ast.List) and not st.value.elts:
+                tgt = st.targets[0].id
+            elif isinstance(st, ast.AnnAssign) and isinstance(st.target, ast.Name) and isinstance(st.value, ast.List) and not st.value.elts:
+                tgt = st.target.id
+            if tgt is not None and i + 1 < len(stmts) and isinstance(stmts[i + 1], ast.For):
+                import copy as _c
+                sh = shape(_c.deepcopy(stmts[i + 1]), tgt, [])
+                if sh is not None:
+                    elt, gens = sh
+                    comp = ast.ListComp(elt=elt, generators=gens)
+                    new = ast.copy_location(ast.Assign(targets=[ast.Name(id=tgt, ctx=ast.Store())], value=ast.copy_location(comp, stmts[i + 1]), lineno=st.lineno), st)
+                    out.append(new)
+                    changed = True
+                    i += 2
+                    continue
+            out.append(st)
+            i += 1
+        return out
+
+    import copy as _c2
+    t2 = _c2.deepcopy(tree)
+    for n in ast.walk(t2):
+        if isinstance(n, (ast.FunctionDef, ast.AsyncFunctionDef)):
+            n.body = block(n.body)
+    if changed:
+        ast.fix_missing_locations(t2)
+        return t2
     return tree
 
 
@@ -382,7 +458,12 @@ def inline_helpers(tree: ast.Module) -> ast.Module:
                 for h in st.handlers:
                     h.body = process_block(h.body, host)
             done = False
-            if isinstance(st, ast.Return) and st.value is not None and (nm := call_of(st.value)) and defs[nm][1] is not host:
+            if isinstance(st, ast.Expr) and (nm := call_of(st.value)) and defs[nm][1] is not host and _is_procedure(defs[nm][1]):
+                new = expand_call(st.value, nm, lambda r: [], set())
+                if new is not None:
+                    out += new
+                    done = True
+            elif isinstance(st, ast.Return) and st.value is not None and (nm := call_of(st.value)) and defs[nm][1] is not host:
                 new = expand_call(st.value, nm, lambda r: [r], set())
                 if new is not None:
                     out += new
@@ -414,7 +495,7 @@ def inline_helpers(tree: ast.Module) -> ast.Module:
                             if y is not x:
                                 blocked.add(id(y))
                 for x in ast.walk(st):
-                    if id(x) not in blocked and (nm := call_of(x)) and defs[nm][1] is not host:
+                    if id(x) not in blocked and (nm := call_of(x)) and defs[nm][1] is not host and not _is_procedure(defs[nm][1]):
                         target_call = (x, nm)
                         break
                 if target_call is not None:
